@@ -100,6 +100,9 @@ func routeCmd(args []string) {
 	base := fs.String("basepath", "", "base path flag")
 	cors := fs.Bool("cors", false, "cors")
 	dump := fs.String("dump", "", "dump script of function")
+	all := fs.Bool("all", false, "all functions")
+	client := fs.Bool("client", false, "generate client")
+	only := fs.String("fn", "", "function filter")
 	fs.Parse(args)
 	scratch, _ := os.MkdirTemp("/var/tmp", "goagvc")
 	if os.Getenv("GOAGVC_KEEP") == "" {
@@ -112,7 +115,7 @@ func routeCmd(args []string) {
 		fmt.Println(err)
 		os.Exit(2)
 	}
-	em := vc.Generate(bin, vc.CorpusEntry{Name: "t", Spec: *spec, BasePath: *base, Cors: *cors}, scratch)
+	em := vc.Generate(bin, vc.CorpusEntry{Name: "t", Spec: *spec, BasePath: *base, Cors: *cors, Client: *client}, scratch)
 	em.Load()
 	if em.GenErr != nil || em.LoadErr != nil {
 		fmt.Println("gen:", em.GenErr, "load:", em.LoadErr)
@@ -140,7 +143,10 @@ func routeCmd(args []string) {
 	}
 	for _, f := range em.W.Functions() {
 		n := f.String()
-		if !strings.Contains(n, "API).route") && !strings.HasSuffix(n, "splitPath") && !strings.HasSuffix(n, "API).ServeHTTP") {
+		if !*all && !strings.Contains(n, "API).route") && !strings.HasSuffix(n, "splitPath") && !strings.HasSuffix(n, "API).ServeHTTP") {
+			continue
+		}
+		if *only != "" && !strings.Contains(n, *only) {
 			continue
 		}
 		e := &vc.FuncEnc{W: em.W, Fn: f, Name: n, D: vc.NewDecls(), Contract: em.W.ContractFor(f)}
